@@ -207,3 +207,21 @@ def awaited_calls(stmt):
 
 def func_label(fi: FuncInfo) -> str:
     return f'{fi.module.rel}|{fi.qual}'
+
+
+def stream_producers(snap):
+    """nested generator(s) of snapshot that read the source files: they open a file for reading and yield its pieces
+    (through `.read(n)` or a chunk-iterator helper) - found among all nested functions, at any depth"""
+    import ast as _ast
+    from ..astutil import walk_local as _wl
+
+    out = []
+    for p in snap.all_nested():
+        if not p.is_generator:
+            continue
+        reads = any(isinstance(n, _ast.Call) and isinstance(n.func, _ast.Attribute) and n.func.attr in ('read', 'read1', 'readinto') for n in _wl(p.node))
+        opens = any(isinstance(n, _ast.Call) and isinstance(n.func, _ast.Attribute) and n.func.attr == 'open' and any(isinstance(a, _ast.Constant) and a.value == 'rb' for a in list(n.args) + [k.value for k in n.keywords]) for n in _wl(p.node))
+        iters = any(isinstance(n, _ast.Call) and (dotted(n.func) or '').rsplit('.', 1)[-1] in ('iter_chunks',) for n in _wl(p.node))
+        if reads or (opens and iters):
+            out.append(p)
+    return out
